@@ -420,6 +420,7 @@ enum Act {
     Deriv,
     Trim,
     SetLead0,
+    SetLead3,
 }
 impl Sut for St {
     type Act = Act;
@@ -445,6 +446,7 @@ impl Sut for St {
             a.push(Act::Deriv);
             a.push(Act::Trim);
             a.push(Act::SetLead0);
+            a.push(Act::SetLead3);
         }
         a
     }
@@ -501,6 +503,13 @@ impl Sut for St {
                 self.m[l] = r(0);
                 hits.push("leading coefficient zeroed");
             }
+            Act::SetLead3 => {
+                // a write through the index operator at the last stored position: after SetLead0 this is exactly the lowest position
+                // holding a leading zero, where a lazily kept "number of significant coefficients" has its off-by-one (round 15)
+                let l = self.m.len() - 1;
+                self.p[l] = r(3);
+                self.m[l] = r(3);
+            }
         }
         self.check()
     }
@@ -511,6 +520,8 @@ impl Sut for St {
         }
         let _ = catch(|| self.p.is_zero());
         let _ = catch(|| self.p.degree());
+        let _ = catch(|| &self.p * &Polynomial::new(vec![r(-1), r(1)]));
+        let _ = catch(|| &Polynomial::new(vec![r(2), r(1)]) * &self.p);
         let _ = catch(|| self.p.polydiv(&Polynomial::new(vec![r(1), r(1)])));
         if self.p.size() > 0 {
             // a one-entry memo keeps only the LAST query: end with the order the check asks for first
@@ -530,6 +541,15 @@ impl Sut for St {
             }
         }
         ensure!(self.p.is_zero() == self.m.iter().all(|c| c.is_zero()), "is_zero");
+        // products with the object that went through the history as an operand, on either side (not a fresh twin)
+        {
+            let q = vec![r(-1), r(1)];
+            let want = if self.m.is_empty() { vec![] } else { m_mul(&self.m, &q) };
+            let left = &self.p * &Polynomial::new(q.clone());
+            let right = &Polynomial::new(q.clone()) * &self.p;
+            ensure!(strip(&coeffs_of(&left)) == strip(&want), "(edited object) * (x - 1) = {:?} expected {:?}", coeffs_of(&left), want);
+            ensure!(strip(&coeffs_of(&right)) == strip(&want), "(x - 1) * (edited object) = {:?} expected {:?}", coeffs_of(&right), want);
+        }
         // differentiation of the object that went through the history (not of a fresh twin)
         if !g.is_empty() {
             let w = g.len() % 3;
